@@ -359,8 +359,14 @@ fn exec_twins(sc: &Scenario) -> Report {
             }
         };
         let empty = vec![];
-        run_pre(&a, sc.threads.first().unwrap_or(&empty));
-        run_pre(&b, sc.threads.get(1).unwrap_or(&empty));
+        let pre = call(|| {
+            run_pre(&a, sc.threads.first().unwrap_or(&empty));
+            run_pre(&b, sc.threads.get(1).unwrap_or(&empty));
+        });
+        if let Err(p) = pre {
+            r.violate("C09.no_panic", format!("a call of the pre-history panicked: {p}"));
+            return r;
+        }
         // synchronise: same position, recorded by both, at the same instant
         sched::advance_quiet(sc.c("sync_gap").max(1));
         let p_sync = sc.c("sync_pos");
@@ -404,8 +410,14 @@ fn exec_twins(sc: &Scenario) -> Report {
             if op.k == "gap" && op.n0() == 0 {
                 continue;
             }
-            let (pa, ea) = (a.per_sec(), a.eta());
-            let (pbv, eb) = (b.per_sec(), b.eta());
+            let q = call(|| ((a.per_sec(), a.eta(), a.duration()), (b.per_sec(), b.eta(), b.duration())));
+            let ((pa, ea, _), (pbv, eb, _)) = match q {
+                Ok(x) => x,
+                Err(p) => {
+                    r.violate("C09.no_panic", format!("{at}: per_sec/eta/duration panicked: {p}"));
+                    break;
+                }
+            };
             let same = (pa == pbv || (pa.is_nan() && pbv.is_nan())) && ea == eb;
             if !same {
                 r.violate(
